@@ -105,6 +105,7 @@ def tree_hash():
                 p = os.path.join(d, f)
                 h.update(p.encode())
                 try:
+                    h.update(str(os.stat(p).st_mtime_ns).encode())   # clang rejects a PCH whose inputs changed mtime
                     with open(p, "rb") as fh:
                         h.update(fh.read())
                 except OSError:
